@@ -594,51 +594,102 @@ RIDGE_TOL = 1e-6       # "up to a regularisation ridge of order 1e-7"
 
 
 DTYPE_PRIORITY = ('float16', 'int8', 'uint8', 'int16', 'int32', 'float32')
+NOTE_NATIVE = 'note:narrow-dtype:matches-native-not-float64'
+
+
+def storage_cause(u, col):
+    """Why the marginal fitted to a column stored in a narrow dtype is degenerate, as a class key
+    `fit:<cause>:<fitted family>`, or None.  Causes (all absent when the same values are stored as float64):
+    * integer-dtype-wraparound-in-range: `np.max(X) - np.min(X)` evaluated in the column's signed integer dtype wraps
+      (span > dtype max): the fitted scale is not max - min;
+    * narrow-float-overflow-in-moments / narrow-float-underflow-in-moments: `np.mean` / `np.std` (`X.mean()`,
+      `X.std()`) evaluated in float16 / float32 overflow to inf (nan) / underflow to 0 for a non-constant column;
+    * narrow-float-nonfinite-scipy-mle: scipy's generic MLE run on float16 / float32 data returns a non-finite shape."""
+    inst = getattr(u, '_instance', None) or u
+    fam = type(inst).__name__
+    params = getattr(inst, '_params', None)
+    if not isinstance(params, dict):
+        return None
+    col = np.asarray(col)
+    dt = col.dtype
+    nonconst = len(np.unique(col)) > 1
+
+    def num(k):
+        try:
+            return float(params[k])
+        except Exception:  # noqa
+            return None
+    if dt.kind == 'i' and dt.itemsize < 8 and fam == 'UniformUnivariate' and nonconst:
+        true_span = float(col.max()) - float(col.min())
+        if num('scale') is not None and num('scale') != true_span and true_span > np.iinfo(dt).max:
+            return f'fit:integer-dtype-wraparound-in-range:{fam}'
+    if dt.kind == 'f' and dt.itemsize < 8 and nonconst and np.isfinite(col.astype(np.float64)).all():
+        if fam in ('GaussianUnivariate', 'TruncatedGaussian'):
+            loc, scale = num('loc'), num('scale')
+            if (loc is not None and not math.isfinite(loc)) or (scale is not None and not math.isfinite(scale)):
+                return f'fit:narrow-float-overflow-in-moments:{fam}'
+            if scale == 0.0:
+                return f'fit:narrow-float-underflow-in-moments:{fam}'
+        else:
+            vals = [num(k) for k in params if k != 'dataset']
+            if any(v is not None and not math.isfinite(v) for v in vals):
+                return f'fit:narrow-float-nonfinite-scipy-mle:{fam}'
+    return None
 
 
 def oracle(names, cols, spec, hist=None):
-    """The property on the real code -> list of (class, observed, required).  A failure that occurs on a table stored
-    in a narrow dtype but NOT on the same values stored as float64 is reported under the cause
-    `fit:storage-dtype-dependent:<dtype of the offending column>:<inaccurate|degenerate>` (inaccurate = entries finite
-    but not the Pearson correlation of the float64 scores; degenerate = NaN / constant scores, NaN samples or
-    densities, exceptions).  The class `fit:entry-not-pearson-of-clipped-scores:narrow-dtype` is never folded: there
-    the entries are not even the Pearson correlation of the cdf values the marginals return for the stored values."""
-    res = _oracle_core(names, cols, spec, hist)
+    """The property on the real code -> list of (class, observed, required); classes starting with `note:` are
+    conforming observations, not failures.
+
+    Narrow storage dtypes: entries are checked against the Pearson correlation of the clipped normal scores of the
+    fitted marginal CDF as the library evaluates it on the STORED values (that is the statement); when they also
+    differ from the float64 evaluation a `note:` records the size.  Entries matching NEITHER are
+    `fit:entry-not-pearson-of-clipped-scores:narrow-dtype`.  A degenerate outcome (NaN / constant scores, non-unit
+    diagonal, NaN samples or densities, exceptions) that does NOT occur when the same values are stored as float64 is
+    reported under its cause `storage_cause(...)` = `fit:<cause>:<fitted family>`; if no cause is recognised it stays
+    the unexplained `fit:storage-dtype-dependent:<dtype>:degenerate`."""
+    info = {}
+    res = _oracle_core(names, cols, spec, hist, info)
     dts = dtype_names(cols)
     narrow = [d for d in DTYPE_PRIORITY if d in dts]
     if not res or not narrow:
         return res
-    keep = [r for r in res if r[0].endswith(':narrow-dtype') or 'fit-history' in r[0]]
+    keep = [r for r in res if r[0].startswith('note:') or r[0].endswith(':narrow-dtype') or 'fit-history' in r[0]]
     rest = [r for r in res if r not in keep]
     if not rest:
         return res
     res64 = {r[0] for r in _oracle_core(names, [np.asarray(c).astype(np.float64) for c in cols], spec, hist)}
-    out, folded = list(keep), {}
+    out, grouped = list(keep), {}
     by_repr = {repr(nm): d for nm, d in zip(names, dts)}
+    causes = info.get('storage_causes', {})
     for cls, obs, req in rest:
-        base = cls.replace(':cdf-at-storage-precision', '')
-        if cls in res64 or base in res64:
+        if cls in res64:
             out.append((cls, obs, req))
             continue
-        kind = 'inaccurate' if cls.startswith('fit:entry-not-pearson') else 'degenerate'
-        prio = ('float16', 'float32', 'int8', 'uint8', 'int16', 'int32') if kind == 'inaccurate' else DTYPE_PRIORITY
-        cand = []
+        offenders = []
         if isinstance(obs, dict):
-            cand = list(obs.get('offending_dtypes') or [])
-            if not cand:
-                cand = [by_repr.get(obs.get(key)) for key in ('column', 'i', 'j')] + \
-                    [by_repr.get(c) for c in (obs.get('columns') or [])]
-        cand = [d for d in prio if d in cand] or [d for d in prio if d in dts]
-        folded.setdefault(f'fit:storage-dtype-dependent:{cand[0]}:{kind}', []).append((cls, obs))
-    for key, items in folded.items():
-        out.append((key, {'underlying_classes': sorted({c for c, _ in items}), 'first_observed': items[0][1],
-                          'dtypes': dts},
+            offenders = [obs.get(key) for key in ('column', 'i', 'j') if obs.get(key) in by_repr] + \
+                [c for c in (obs.get('columns') or []) if c in by_repr]
+        offenders = [c for c in offenders if by_repr[c] in DTYPE_PRIORITY]
+        keys = sorted({causes[c] for c in offenders if causes.get(c)})
+        if not keys and not offenders:            # no column identified: any explained narrow column of the table
+            keys = sorted({k for c, k in causes.items() if k and by_repr.get(c) in DTYPE_PRIORITY})
+        if not keys:
+            cand = [by_repr[c] for c in offenders]
+            dt = ([d for d in DTYPE_PRIORITY if d in cand] or narrow)[0]
+            keys = [f'fit:storage-dtype-dependent:{dt}:degenerate']
+        for k in keys:
+            grouped.setdefault(k, []).append((cls, obs))
+    for key, items in grouped.items():
+        first = items[0][1]
+        out.append((key, {'symptoms': sorted({c for c, _ in items}), 'first_observed': first, 'dtypes': dts,
+                          'fitted': info.get('fitted', {})},
                     'the property holds whatever the storage dtype of the training table (the same values stored as '
-                    'float64 satisfy it)'))
+                    'float64 satisfy it): finite marginal parameters, unit diagonal for a non-constant column, no NaN'))
     return out
 
 
-def _oracle_core(names, cols, spec, hist=None):
+def _oracle_core(names, cols, spec, hist=None, info=None):
     """(the fit under test is the LAST one of the history)"""
     out = []
     try:
@@ -697,6 +748,13 @@ def _oracle_core(names, cols, spec, hist=None):
     if np.max(np.abs(off)) > 1.0 + 1e-12:
         out.append(('fit:range', float(np.max(np.abs(off))), 'entries in [-1, 1]'))
     Sref = reference_scores(model, X)
+    if info is not None and len(model.univariates) == k:
+        info['storage_causes'] = {repr(nm): storage_cause(u, c) for nm, u, c in zip(names, model.univariates, cols)}
+        info['fitted'] = {repr(nm): {'family': marg_name(u),
+                                     'params': {kk: (float(v) if np.ndim(v) == 0 else '...')
+                                                for kk, v in (getattr(getattr(u, '_instance', None) or u, '_params', None)
+                                                              or {}).items() if kk != 'dataset'}}
+                          for nm, u, c in zip(names, model.univariates, cols) if str(np.asarray(c).dtype) in DTYPE_PRIORITY}
     for i in range(k):
         dgi = float(C[i, i])
         if const[i]:
@@ -783,15 +841,20 @@ def _oracle_core(names, cols, spec, hist=None):
                         if abs(rn - float(C[i, j])) <= (RIDGE_TOL if i == j else 1e-9) + 1e-9 * (kap[i] ** 2 + kap[j] ** 2):
                             sub = ':cdf-at-storage-precision'
                     sens = [dts[c] for c in (i, j) if not np.array_equal(Sn[:, c], Sref[:, c])]
-                out.append(('fit:entry-not-pearson-of-clipped-scores' + sub,
-                            {'i': repr(names[i]), 'j': repr(names[j]), 'real': float(C[i, j]), 'dtypes': dts,
-                             'offending_dtypes': sens if narrow else [],
-                             'pearson_of_clipped_scores': r, 'abs_diff': err,
-                             'score_i_range': [float(Sref[:, i].min()), float(Sref[:, i].max())],
-                             'score_j_range': [float(Sref[:, j].min()), float(Sref[:, j].max())]},
-                            'each entry = Pearson correlation (float64) of the two columns after fitted marginal cdf '
-                            '(evaluated on the float64 values), clip to [EPSILON, 1-EPSILON], standard normal quantile '
-                            '(NaN -> 0; diagonal up to the ridge), whatever the storage dtype of the table'))
+                obs_ = {'i': repr(names[i]), 'j': repr(names[j]), 'real': float(C[i, j]), 'dtypes': dts,
+                        'offending_dtypes': sens if narrow else [],
+                        'pearson_of_clipped_scores(float64 cdf)': r, 'abs_diff': err,
+                        'score_i_range': [float(Sref[:, i].min()), float(Sref[:, i].max())],
+                        'score_j_range': [float(Sref[:, j].min()), float(Sref[:, j].max())]}
+                if sub == ':cdf-at-storage-precision':
+                    # conforming: the entries ARE the Pearson correlation of the columns mapped through their fitted
+                    # marginal CDF as evaluated on the stored values; only the float64 re-evaluation differs
+                    out.append((NOTE_NATIVE, obs_, ''))
+                else:
+                    out.append(('fit:entry-not-pearson-of-clipped-scores' + sub, obs_,
+                                'each entry = Pearson correlation (float64) of the two columns after fitted marginal '
+                                'cdf (as the marginal evaluates it on the stored values), clip to [EPSILON, 1-EPSILON], '
+                                'standard normal quantile (NaN -> 0; diagonal up to the ridge)'))
     # sampling / density after regularisation
     try:
         with np.errstate(all='ignore'), warnings.catch_warnings():
@@ -981,9 +1044,32 @@ def dtype_probes():
         (['p', 'q', 'r'], cast([p, q, rr], ['uint8', 'int8', 'int32']), g_, ['probe:dtype-small-ints']),
         (['x', 'y', 'w'], cast([x, y, w], ['float32'] * 3), u_, ['probe:dtype-float32-packed-top-uniform']),
         (['g', 'h', 'k'], cast([g, h, k], ['float16'] * 3), g_, ['probe:dtype-float16']),
-        (['g', 'h'], cast([1500.0 + 100.0 * g, h], ['float16'] * 2), g_, ['probe:dtype-float16-large-values']),
-        (['p', 'q'], cast([np.clip(np.round(-30.0 + 20.0 * g), -100, 40), q], ['int8', 'int8']), u_,
-         ['probe:dtype-int8-uniform-range-overflow']),
+    ] + storage_cause_probes()
+
+
+def storage_cause_probes():
+    """one deterministic table per recorded (cause, fitted family) of a degenerate fit that exists ONLY in narrow
+    storage: a narrow column `x` next to a float64 column `y`."""
+    r = np.random.RandomState(0)
+    n = 60
+    z = r.randn(n)
+    y = 0.5 * z + r.randn(n)
+    z01 = (z - z.min()) / (z.max() - z.min())
+
+    def pr(tag, vals, dt, fam):
+        return (['x', 'y'], [np.asarray(vals, dtype=float).astype(dt), y], ['class', fam], ['probe:storage:' + tag])
+    return [
+        pr('int8-span200-uniform', np.round(-100 + 200 * z01), 'int8', 'UniformUnivariate'),
+        pr('int16-span40000-uniform', np.round(-20000 + 40000 * z01), 'int16', 'UniformUnivariate'),
+        pr('int32-span3e9-uniform', np.round(-1.5e9 + 3e9 * z01), 'int32', 'UniformUnivariate'),
+        pr('float16-1500-gaussian', 1500 + 100 * z, 'float16', 'GaussianUnivariate'),
+        pr('float32-1e20-gaussian', 1e20 * (3 + z), 'float32', 'GaussianUnivariate'),
+        pr('float16-1500-gamma-falls-back-to-gaussian', 1500 + 100 * z, 'float16', 'GammaUnivariate'),
+        pr('float16-1e-5-gaussian', 1e-5 * (3 + z), 'float16', 'GaussianUnivariate'),
+        pr('float32-1e-25-gaussian', 1e-25 * (3 + z), 'float32', 'GaussianUnivariate'),
+        pr('float32-1e20-truncated', 1e20 * (3 + z), 'float32', 'TruncatedGaussian'),
+        pr('float16-1e-5-truncated', 1e-5 * (3 + z), 'float16', 'TruncatedGaussian'),
+        pr('float16-0.01-gamma', 0.01 * z, 'float16', 'GammaUnivariate'),
     ]
 
 
@@ -1064,6 +1150,7 @@ def search(ctx, deep):
     checked = found = 0
     ndefault = 0
     seen_cls = set()
+    noted, max_native_dev = False, 0.0
     probes = fixed_probes() + history_probes() + dtype_probes()
     for t in range(len(probes) + ntables):
         hist = None
@@ -1089,6 +1176,15 @@ def search(ctx, deep):
         if hist is None:
             ctx.count('search:history:none')
         for cls, obs, req in res:
+            if cls.startswith('note:'):
+                ctx.count(cls[len('note:'):])
+                dev = obs.get('abs_diff', 0.0) if isinstance(obs, dict) else 0.0
+                if dev > max_native_dev:
+                    max_native_dev = dev
+                if not noted:
+                    noted = True
+                    ctx.samples.append({'note': cls, 'names': list(names), 'config': spec, 'observed': obs})
+                continue
             found += 1
             ctx.count('search:fail:' + cls)
             if cls in seen_cls:
@@ -1103,6 +1199,7 @@ def search(ctx, deep):
             ctx.fail_input('GaussianMultivariate.fit', payload_of(nm, cs, sp, kinds if nm == names else None, hs),
                            obs, req, cls)
     ctx.support = {'tables_checked': checked, 'failures': found, 'deep': deep,
+                   'narrow_dtype_max_deviation_native_vs_float64_cdf': max_native_dev,
                    'oracle': 'finite, symmetric, range, diagonal, constant columns, eigvalsh>=-1e-9, cond<=1/eps, labels, '
                              'entry=pearson(independently recomputed clipped scores), refit history (same / mixed containers): labels and entries same as a fresh instance, sample(5)/probability_density do not raise / no NaN'}
 
